@@ -791,6 +791,8 @@ func (envs *Manager) TeardownEnvironment(environmentId uid.ID, force bool) error
 	})
 
 	// we trigger all cleanup hooks, first calls, then tasks immediately after
+	// All the cleanup task hooks, of every weight and whatever the status of their role, must be released afterwards.
+	cleanupTaskHooksToRelease := make(task.Tasks, 0)
 	for _, weight := range allWeights {
 		hooksForWeight, ok := hooksMapForDestroy[weight]
 		if ok {
@@ -798,6 +800,7 @@ func (envs *Manager) TeardownEnvironment(environmentId uid.ID, force bool) error
 
 			// calls done, we start the task hooks...
 			cleanupTaskHooks := hooksForWeight.FilterTasks()
+			cleanupTaskHooksToRelease = append(cleanupTaskHooksToRelease, cleanupTaskHooks...)
 
 			// ...but only if their parent role is still ACTIVE (i.e. not killed or executor failed)
 			cleanupTaskHooks = cleanupTaskHooks.Filtered(func(t *task.Task) bool {
@@ -813,10 +816,10 @@ func (envs *Manager) TeardownEnvironment(environmentId uid.ID, force bool) error
 					Warn("environment post-destroy hooks failed")
 			}
 
-			// and then we kill them too
-			taskmanMessage = task.NewEnvironmentMessage(taskop.ReleaseTasks, environmentId, cleanupTaskHooks, nil)
 		}
 	}
+	// and then we kill them too
+	taskmanMessage = task.NewEnvironmentMessage(taskop.ReleaseTasks, environmentId, cleanupTaskHooksToRelease, nil)
 
 	envs.cancelCallsPendingAwait(env)
 
